@@ -5,6 +5,8 @@ import DW.Generated.Tables
 import DW.Model.Load
 import DW.Lemmas.SoundScalar
 import DW.Lemmas.Sound
+import DW.Lemmas.SoundV1
+import DW.Lemmas.RoundTrip
 
 namespace DW.Props.C05
 open DW
@@ -37,8 +39,80 @@ the loader of one declared member (`loadUnionTry_origin`, `loadTagged_origin`).
 Outside the fragment: fixed-length tuples with `None`-accepting members (recorded finding `short-tuple-with-optional`),
 NamedTuple, the `None` annotation outside a Union (recorded finding). -/
 theorem C05_sound (std : Std) (cfg : Option MetaCfg) (t : Ty) (hf : Frag t) (o : JVal) (y : PyVal)
-    (h : loadD std cfg t o = .ok y) : Sound t y :=
+    (h : loadD std cfg t o = .ok y) : Sound conformsScalar t y :=
   sound std cfg t hf o y h
+
+/-- … and at the entry point: whatever `fromdict(cls, o)` returns for a main class of the fragment, on any JSON input, is a
+sound instance of that class (the main class's own Meta is its travelling config). -/
+theorem C05_fromdict_sound (std : Std) (ci : ClassInfo) (ftys : List (S × Ty)) (hf : Frag (.cls ci ftys)) (o : JVal) (y : PyVal)
+    (h : fromdict std (.cls ci ftys) o = .ok y) : Sound conformsScalar (.cls ci ftys) y := by
+  apply sound std (rootConfig ci.cmeta) (.cls ci ftys) hf o y
+  rw [loadD, RT.effMeta_root]
+  simp only [fromdict] at h
+  split at h
+  · simp at h
+  · exact h
+
+/-- **C05 (soundness, v1 engine).** The same statement for the v1 loader: for every type built from the scalar kinds (incl.
+`bytes` / `bytearray`; `Literal` members by `==` *and* type — since repair af98f53), `Any`, `Optional`, list / set /
+frozenset / deque, variadic and fixed-length tuples (always exactly the declared length: the generated code indexes
+`v1[0] … v1[n-1]`), dict-like types, TypedDict classes, `Union`s (tag dispatch, the exact-type fast path, try-parse of the
+other members, coercion pass) and dataclasses, nested to any depth (`FragV1`), for **every** JSON input and any travelling
+config: whatever `loadV1` returns is an instance of the annotation (`Sound conformsScalarV1`). The Union case shows that
+each of the four ways the generated Union helper can return produces the result of one declared member's loader, or the
+input itself when it already has exactly a simple member's type (`v1Tagged_origin`, `v1UnionExact_origin`,
+`v1UnionCoerce_origin`, `exactKind_conf`); the dataclass case goes through the generated field loop (`v1Fields_sound`),
+the catch-all argument and `cls(**kw)` (`finishKw_sound`). Outside the fragment: NamedTuple. -/
+theorem C05_v1_sound (std : Std) (cfg : Option MetaCfg) (t : Ty) (hf : FragV1 t) (o : JVal) (y : PyVal)
+    (h : loadV1 std cfg t o = .ok y) : Sound conformsScalarV1 t y :=
+  soundV1 std cfg t hf o y h
+
+/-- … and at the entry point `fromdict(cls, o)` of a main class bound to the v1 engine. -/
+theorem C05_v1_fromdict_sound (std : Std) (ci : ClassInfo) (ftys : List (S × Ty)) (hf : FragV1 (.cls ci ftys)) (o : JVal) (y : PyVal)
+    (h : fromdictV1 std (.cls ci ftys) o = .ok y) : Sound conformsScalarV1 (.cls ci ftys) y := by
+  cases hf with
+  | scalar _ ht => simp [isScalarTyV1, isScalarTy] at ht
+  | cls _ _ hall =>
+    simp only [fromdictV1] at h
+    exact v1Class_sound _ _ ci ftys
+      (fun f v z hz => v1Field_sound std _ f v z ftys (fun p hp o' z' hz' => soundV1 std _ p.2 (hall p hp) o' z' hz') hz) o y h
+
+/-- the scalar part alone, for every JSON input -/
+theorem C05_v1_sound_scalar (std : Std) (cfg : Option MetaCfg) (t : Ty) (ht : isScalarTyV1 t = true) (o : JVal) (y : PyVal)
+    (h : loadV1 std cfg t o = .ok y) : conformsScalarV1 t y = true :=
+  sound_scalar_v1 std cfg t ht o y h
+
+/-- non-vacuity of `FragV1`: a v1 model with `bytes`, a fixed tuple nested in a fixed tuple, a `Literal`, and a Union of a
+simple type, a container, a tagged dataclass and `None` is in the fragment -/
+theorem C05_v1_sound_example :
+    FragV1 (.cls { name := "R".toList, cmeta := some { v1 := some true }, fields := [{ name := "b".toList }, { name := "t".toList }, { name := "u".toList }] }
+      [("b".toList, .bytes), ("t".toList, .tuple [.int, .tuple [.literal [.int 1, .str "a".toList], .bool]]),
+       ("u".toList, .union [.int, .seq .list .str, .cls { name := "T".toList, cmeta := some { tag := some "t".toList }, fields := [{ name := "a".toList }] } [("a".toList, .leaf .date)], .none])]) := by
+  refine FragV1.cls _ _ ?_
+  intro p hp
+  simp only [List.mem_cons, List.not_mem_nil, or_false] at hp
+  rcases hp with rfl | rfl | rfl
+  · exact FragV1.scalar _ rfl
+  · refine FragV1.tuple _ (by simp) ?_
+    intro t ht
+    simp only [List.mem_cons, List.not_mem_nil, or_false] at ht
+    rcases ht with rfl | rfl
+    · exact FragV1.scalar _ rfl
+    · refine FragV1.tuple _ (by simp) ?_
+      intro t ht
+      simp only [List.mem_cons, List.not_mem_nil, or_false] at ht
+      rcases ht with rfl | rfl <;> exact FragV1.scalar _ rfl
+  · refine FragV1.union _ ?_
+    intro t ht hn
+    simp only [List.mem_cons, List.not_mem_nil, or_false] at ht
+    rcases ht with rfl | rfl | rfl | rfl
+    · exact FragV1.scalar _ rfl
+    · exact FragV1.seq _ _ (FragV1.scalar _ rfl)
+    · refine FragV1.cls _ _ ?_
+      intro q hq
+      simp only [List.mem_cons, List.not_mem_nil, or_false] at hq
+      subst hq; exact FragV1.scalar _ rfl
+    · simp [isNoneArg] at hn
 
 /-- non-vacuity: a nested model is in the fragment -/
 theorem C05_sound_example :
